@@ -42,6 +42,8 @@ def evaluate(case, engine, acc=None):
             acc.count('probe:partial-solution-checked')
         if run.monitor.answered and run.monitor.reattempts:
             acc.count('probe:prompt-interleaved-with-computation')
+        if case.get('defaults'):
+            acc.count('fault:default-section')
         acc.sample({'engine': engine, 'sched': case['sched'], 'real': run.outcome, 'values': len(simrun.flat_solution(run)),
                     'reattempts': run.monitor.reattempts, 'reads_checked': run.monitor.n_reads,
                     'solution': dict(list(simrun.flat_solution(run).items())[:5])})
@@ -53,7 +55,7 @@ def run_one(engine, seed, acc, tier):
         from . import shipped_props
         return shipped_props.run_one(ID, seed, acc, tier)
     rng = core.Rng(core.h64('c03', seed))
-    case = gen.gen_case(seed, clean=rng.chance(0.45))
+    case = gen.gen_case(seed, clean=rng.chance(0.45), defaults=(engine == 'synth' and rng.chance(0.12)))
     if case['sched'][0] is None or rng.chance(0.5):
         case['sched'] = [rng.randrange(1 << 32), rng.pick([1, 1, 3, 0])]
     if engine == 'synth_reuse':
